@@ -25,8 +25,6 @@ if TYPE_CHECKING:
 
     from numpy.typing import ArrayLike, NDArray
 
-TypeCosmology = Union[FLRW, "CustomCosmology"]  # used with get_args
-
 __all__ = [
     "CustomCosmology",
     "cosmology_is_equal",
@@ -72,6 +70,9 @@ class CustomCosmology(ABC):
             input redshifts.
         """
         pass
+
+
+TypeCosmology = Union[FLRW, CustomCosmology]  # used with get_args
 
 
 def cosmology_is_equal(cosmo1: TypeCosmology, cosmo2: TypeCosmology) -> bool:
